@@ -142,9 +142,17 @@ def explore_model(g, mm, model, cont, max_paths):
             want = next((a for a in anc if type(a).__name__ == tname), None)
             if get_parent_of_type(tname, o) is not want:
                 problems.append('get_parent_of_type(%s, #%d)' % (tname, index[id(o)]))
+            # the type may also be given as the class itself
+            tcls = next((type(a) for a in anc if type(a).__name__ == tname), None)
+            if tcls is not None and get_parent_of_type(tcls, o) is not want:
+                problems.append('get_parent_of_type(<class %s>, #%d)' % (tname, index[id(o)]))
     for tname in {type(o).__name__ for o in objs}:
         want = [o for o in objs if type(o).__name__ == tname]
         got = get_children_of_type(tname, model)
+        got_by_class = get_children_of_type(type(want[0]), model)
+        if [id(x) for x in got_by_class] != [id(x) for x in want]:
+            problems.append('get_children_of_type(<class %s>): %s, expected %s' % (
+                tname, [index.get(id(x)) for x in got_by_class], [index[id(x)] for x in want]))
         if [id(x) for x in got] != [id(x) for x in want]:
             problems.append('get_children_of_type(%s): %s, expected %s' % (
                 tname, [index.get(id(x)) for x in got], [index[id(x)] for x in want]))
